@@ -109,6 +109,7 @@ def resolve(idx: int, t1: int, t2: int, t3: int, y0: int, y1: int, y2: int) -> b
     pre: 0 <= y0 <= YMAX and 0 <= y1 <= YMAX and 0 <= y2 <= YMAX
     post: _
     """
+    xs.path_start()
     idx = xs.pick(idx, LO, HI)
     do_pkg, do_time = bool(FLAGS & 1), bool(FLAGS & 2)
     with xs.nt():
@@ -200,6 +201,7 @@ def cer_history(e1: int, ta: int, e2: int, tb: int, with_ids: bool) -> bool:
     pre: 0 <= e1 < len(CER_EXPRS) and 0 <= e2 < len(CER_EXPRS) and 0 <= ta < len(CER_TABLES) and 0 <= tb < len(CER_TABLES)
     post: _
     """
+    xs.path_start()
     e1, e2, ta, tb = xs.pick(e1, 0, len(CER_EXPRS)), xs.pick(e2, 0, len(CER_EXPRS)), xs.pick(ta, 0, len(CER_TABLES)), xs.pick(tb, 0, len(CER_TABLES))
     xs.REAL_LRU = True
     xs.clear_ahbicht_caches()
